@@ -297,6 +297,8 @@ Definition emit (sp : span) (bytes : list N) : M unit := fun c =>
           match target_pc seg with
           | None => Abort FPanic                                     (* source_map.add(.., segment.target_pc(), ..) *)
           | Some tp =>
+              (* SourceMap::add: `pc.as_usize()..(pc.as_usize() + len)` with the target pc *)
+              if two64 <=? tp + Z.of_nat (List.length bytes) then Abort FPanic else
               match seg_emit seg bytes with
               | EmitPanic => Abort FPanic
               | EmitOutOfRange => Err [mkDiag DSegmentRange (Some sp) [name] []] c
@@ -363,7 +365,7 @@ Definition evaluate_expression (e : lexpr) : M (option sval) := fun c =>
   match try_current_target_pc c with
   | PcPanic => Abort FPanic
   | pcr =>
-      let pc := match pcr with PcSome z => Some z | _ => None end in
+      let pc := match pcr with PcSome z => Some (usize_as_i64 z) | _ => None end in      (* `self.pc...as_i64()` *)
       if diverges c (le_expr e) then Abort FDiverge else
       match eval (env_of (symbols c) (current_scope_nx c) pc) (le_expr e) with
       | EPanic => Abort FPanic
@@ -542,13 +544,19 @@ Fixpoint loop_iterations (fuel : nat) (index count : Z) (body : Z -> M unit) : M
   | S f => body index ;;; loop_iterations f (index + 1) count body
   end.
 
-Fixpoint bind_macro_args (params : list (ident * span)) (args : list lexpr) : M unit :=
-  match params, args with
-  | (p, psp) :: params', a :: args' =>
-      v <- evaluate_expression a ;;
+(* the arguments are evaluated in the scope of the invocation ... *)
+Fixpoint eval_macro_args (args : list lexpr) : M (list sdata) :=
+  match args with
+  | [] => ret []
+  | a :: r => v <- evaluate_expression a ;; vs <- eval_macro_args r ;; ret (sval_to_sdata v :: vs)
+  end.
+(* ... and bound as MacroArgument symbols inside the macro's scope *)
+Fixpoint bind_macro_args (params : list (ident * span)) (values : list sdata) : M unit :=
+  match params, values with
+  | (p, psp) :: params', v :: values' =>
       c <- get ;;
-      add_symbol [p] (symbol_ c (Some psp) (sval_to_sdata v) TyMacroArgument) ;;;
-      bind_macro_args params' args'
+      add_symbol [p] (symbol_ c (Some psp) v TyMacroArgument) ;;;
+      bind_macro_args params' values'
   | _, _ => ret tt
   end.
 
@@ -662,7 +670,7 @@ Definition emit_token_body (fuel : nat) (t : token) : M unit :=
           match emit_instruction m f value pc with
           | (bytes, None) => emit full_span bytes
           | (_, Some InstrPanic) => abort FPanic
-          | (_, Some TooFar) => emit full_span branch_too_far_bytes ;;; err1 DBranchTooFar (Some mspan) [] [value]
+          | (bytes, Some TooFar) => emit full_span bytes ;;; err1 DBranchTooFar (Some mspan) [] [value]
           | (bytes, Some InvalidInstruction) => emit full_span bytes ;;; err1 DInvalidInstruction (Some full_span) [] []
           end
       end
@@ -702,7 +710,8 @@ Definition emit_token_body (fuel : nat) (t : token) : M unit :=
               then err1 (DEval ErrArgCount) (Some nspan) [] []
               else
                 modify bump_macro_id ;;;
-                with_scope (macro_scope_name (next_macro_scope_id c)) None (bind_macro_args params args ;;; emit_tokens body)
+                values <- eval_macro_args args ;;
+                with_scope (macro_scope_name (next_macro_scope_id c)) None (bind_macro_args params values ;;; emit_tokens body)
           end
       end
   | TPc value =>
@@ -725,8 +734,7 @@ Definition emit_token_body (fuel : nat) (t : token) : M unit :=
               | Some b =>
                   let old := current_segment c in
                   modify (select_segment (Some name)) ;;;
-                  emit_tokens (blk_inner b) ;;;            (* `?`: on error the previous segment is not restored *)
-                  modify (select_segment old)
+                  finally (emit_tokens (blk_inner b)) (modify (select_segment old))   (* restored also after an error *)
               | None => modify (select_segment (Some name))
               end
           end
